@@ -7,8 +7,8 @@ use super::*;
 #[path = "oracle.rs"]
 mod oracle;
 
-pub const NA: usize = 6;
-pub const NL: usize = 9;
+pub const NA: usize = 5;
+pub const NL: usize = 8;
 
 /// SCENARIO etag_eq_sym: a:[u8;6] na:usize b:[u8;6] nb:usize
 #[kani::proof]
@@ -100,7 +100,7 @@ fn sub_eq(a: &[u8], b: &[u8]) -> bool {
 /// yields only syntactic tags.
 /// SCENARIO etag_list_sym: buf:[u8;9] n:usize
 #[kani::proof]
-#[kani::unwind(11)]
+#[kani::unwind(10)]
 fn etag_list_sym() {
     let buf: [u8; NL] = kani::any();
     let n: usize = kani::any();
@@ -139,15 +139,13 @@ fn hv(b: &[u8]) -> HeaderValue {
 }
 
 /// If-Match / If-None-Match against the entity's ETag: symbolic header bytes, symbolic ETag.
-/// SCENARIO etag_match_sym: buf:[u8;9] n:usize e:[u8;6] ne:usize has_etag:bool
-#[kani::proof]
-#[kani::unwind(11)]
-fn etag_match_sym() {
+/// `which`: 0 = If-Match, 1 = If-None-Match (separate harnesses: the two problems are independent).
+/// SCENARIO etag_match_*: buf:[u8;8] n:usize e:[u8;5] ne:usize
+fn etag_match(which: u8, has_etag: bool) {
     let buf: [u8; NL] = kani::any();
     let n: usize = kani::any();
     let e: [u8; NA] = kani::any();
     let ne: usize = kani::any();
-    let has_etag: bool = kani::any();
     kani::assume(n <= NL && ne <= NA);
     let b = &buf[..n];
     let e = &e[..ne];
@@ -175,20 +173,40 @@ fn etag_match_sym() {
             i += 1;
         }
     }
-
     let mut h = HeaderMap::new();
-    h.insert(header::IF_MATCH, hv(b));
-    let am = any_match(&etag, &h);
-    assert!(am == Ok(star || strong), "C04: If-Match decision deviates (strong comparison, `*` passes)");
-
-    let mut h2 = HeaderMap::new();
-    h2.insert(header::IF_NONE_MATCH, hv(b));
-    let nm = none_match(&etag, &h2);
-    assert!(nm == Some(!(star || weak)), "C04: If-None-Match decision deviates (weak comparison, `*` matches)");
-
-    let empty = HeaderMap::new();
-    assert!(any_match(&etag, &empty) == Ok(true) && none_match(&etag, &empty).is_none(), "C04: absent headers");
+    if which == 0 {
+        h.insert(header::IF_MATCH, hv(b));
+        let am = any_match(&etag, &h);
+        assert!(am == Ok(star || strong), "C04: If-Match decision deviates (strong comparison, `*` passes)");
+        assert!(none_match(&etag, &h).is_none(), "C04: If-None-Match decision without the header");
+    } else {
+        h.insert(header::IF_NONE_MATCH, hv(b));
+        let nm = none_match(&etag, &h);
+        assert!(nm == Some(!(star || weak)), "C04: If-None-Match decision deviates (weak comparison, `*` matches)");
+        assert!(any_match(&etag, &h) == Ok(true), "C04: If-Match decision without the header");
+    }
     kani::cover!(strong, "strong match");
     kani::cover!(weak && !strong, "weak-only match");
     kani::cover!(r == Some(2) && !weak, "two tags, no match");
+}
+
+#[kani::proof]
+#[kani::unwind(10)]
+fn etag_match_im() {
+    etag_match(0, true)
+}
+#[kani::proof]
+#[kani::unwind(10)]
+fn etag_match_inm() {
+    etag_match(1, true)
+}
+#[kani::proof]
+#[kani::unwind(10)]
+fn etag_match_im_noetag() {
+    etag_match(0, false)
+}
+#[kani::proof]
+#[kani::unwind(10)]
+fn etag_match_inm_noetag() {
+    etag_match(1, false)
 }
